@@ -221,6 +221,23 @@ fn key_neighbours(prop: &str, proto: Proto, acc: &mut Acc) {
     let seed = if proto.is_local() { domains::seeds(proto)[2].clone() } else { vec![] };
     let payload = json!({"a": "v", "iss": "Alice", "isss": "Mallory", "ab": "w"});
     let Out::Ok(t) = adapter::core_issue(proto, &key.sk, &seed, &payload.to_string(), None, None) else { return };
+    // an expectation is not met by a token value that merely *contains* the expected value
+    let containers = json!({"aud": ["api", "web"], "a": ["v"], "b": {"v": 1}, "c": "v,w", "d": [["v"]], "e": {"e": "v"}});
+    if let Out::Ok(tc) = adapter::core_issue(proto, &key.sk, &seed, &containers.to_string(), None, None) {
+        for (ek, ev) in [("aud", "api"), ("aud", "web"), ("a", "v"), ("b", "v"), ("c", "v"), ("d", "v"), ("e", "v")] {
+            let form = if ek == "aud" { Form::Auto } else { Form::TupleString };
+            let ops = vec![POp::Check(ClaimSpec { key: ek.into(), value: json!(ev), form }), POp::Parse(0, 0)];
+            for (layer, default) in [(Layer::Generic, false), (Layer::Prelude, true)] {
+                let ev2 = adapter::parse_history(proto, layer, default, &[key.pk.clone()], &[tc.clone()], &ops);
+                acc.executions += 1;
+                if let Some(PEvent::Parsed(out, _)) = ev2.last() {
+                    if out.is_ok() {
+                        acc.violate(format!("{}|{}|{:?}|containment-accepted", prop, proto.name(), layer), format!("expectation {}={:?} accepted for the payload {} (the value only contains it)", ek, ev, containers), json!({"product_case": {"proto": proto, "flavor": Flavor::Generic, "payload": containers, "expected": [[ek, ev]]}}));
+                    }
+                }
+            }
+        }
+    }
     for (ek, ev, should) in [("a", "v", true), ("A", "v", false), ("a ", "v", false), ("ab", "v", false), ("ab", "w", true), ("isss", "Alice", false), ("isss", "Mallory", true), ("is", "Alice", false)] {
         let ops = vec![POp::Check(ClaimSpec { key: ek.into(), value: json!(ev), form: Form::TupleString }), POp::Parse(0, 0)];
         let ev2 = adapter::parse_history(proto, Layer::Generic, false, &[key.pk.clone()], &[t.clone()], &ops);
@@ -273,6 +290,75 @@ fn number_spellings(prop: &str, proto: Proto, acc: &mut Acc) {
             }
         }
     }
+}
+
+/// Expectations, validators and the default rules must survive a later set_footer / set_implicit_assertion
+/// (and must work when registered after it): tokens carry the footer (and assertion) the parser is given.
+fn config_around_footer(prop: &str, proto: Proto, acc: &mut Acc) {
+    let pool = domains::key_pool(proto);
+    let key = &pool[0];
+    let seed = if proto.is_local() { domains::seeds(proto)[2].clone() } else { vec![] };
+    let (f, a) = ("cfg-footer", "cfg-assertion");
+    let a_opt = if proto.has_assertion() { Some(a) } else { None };
+    let issue = |payload: &str| adapter::core_issue(proto, &key.sk, &seed, payload, Some(f), a_opt).ok().cloned();
+    let (Some(t_ok), Some(t_other), Some(t_missing), Some(t_expired)) = (issue("{\"a\":\"v1\"}"), issue("{\"a\":\"v2\"}"), issue("{\"data\":1}"), issue("{\"a\":\"v1\",\"exp\":\"1999-01-01T00:00:00Z\"}")) else { return };
+    let tokens = vec![t_ok, t_other, t_missing, t_expired];
+    adapter::reset_verdicts();
+    adapter::set_verdict(1, adapter::Verdict::Reject);
+    adapter::set_verdict(0, adapter::Verdict::Accept);
+    let footer_ops = |v: &mut Vec<POp>| {
+        v.push(POp::Footer(f.into()));
+        if proto.has_assertion() {
+            v.push(POp::Assertion(a.into()));
+        }
+    };
+    // (registration, token index -> expected Ok?)
+    let regs: Vec<(&str, Vec<POp>, [Option<bool>; 4], bool)> = vec![
+        ("check_claim(a=v1)", vec![POp::Check(ClaimSpec { key: "a".into(), value: json!("v1"), form: Form::TupleString })], [Some(true), Some(false), Some(false), None], false),
+        ("validate_claim(a, rejecting)", vec![POp::Validate("a".into(), 1)], [Some(false), Some(false), Some(false), None], false),
+        ("validate_claim(a, accepting)", vec![POp::Validate("a".into(), 0)], [Some(true), Some(true), Some(true), None], false),
+        ("PasetoParser::default() rules", vec![], [Some(true), Some(true), Some(true), Some(false)], true),
+    ];
+    for (what, reg, want, default_only) in regs {
+        for (layer, default) in [(Layer::Generic, false), (Layer::Prelude, false), (Layer::Prelude, true)] {
+            if default_only && !default {
+                continue;
+            }
+            for order in ["registration then set_footer", "set_footer then registration"] {
+                let mut ops: Vec<POp> = Vec::new();
+                if order.starts_with("registration") {
+                    ops.extend(reg.iter().cloned());
+                    footer_ops(&mut ops);
+                } else {
+                    footer_ops(&mut ops);
+                    ops.extend(reg.iter().cloned());
+                }
+                for ti in 0..tokens.len() {
+                    ops.push(POp::Parse(ti, 0));
+                }
+                let ev = adapter::parse_history(proto, layer, default, &[key.pk.clone()], &tokens, &ops);
+                let outs: Vec<bool> = ev.iter().filter_map(|e| if let PEvent::Parsed(o, _) = e { Some(o.is_ok()) } else { None }).collect();
+                for (ti, w) in want.iter().enumerate() {
+                    // the expired token is only judged under the default parser (otherwise nothing looks at exp)
+                    let w = if ti == 3 && default && what != "PasetoParser::default() rules" { Some(false) } else { *w };
+                    let Some(w) = w else { continue };
+                    acc.executions += 1;
+                    if outs.get(ti) == Some(&w) {
+                        if w {
+                            acc.controls_ok += 1;
+                        }
+                    } else {
+                        acc.violate(
+                            format!("{}|{}|{:?}{}|config-around-footer|{}", prop, proto.name(), layer, if default { "(default)" } else { "" }, if w { "rejected" } else { "accepted" }),
+                            format!("{} with {} ({}): token #{} -> accepted = {:?}, expected {}", what, order, if proto.has_assertion() { "footer and assertion" } else { "footer" }, ti, outs.get(ti), w),
+                            json!({"config_around_footer": {"proto": proto}}),
+                        );
+                    }
+                }
+            }
+        }
+    }
+    adapter::reset_verdicts();
 }
 
 // ------------------------------------------------------------------------------------------------ run
@@ -339,6 +425,16 @@ pub fn run(prop: &'static str, tier: &str) -> i32 {
         if all.samples.len() < 2 {
             all.sample(json!({"engine": "B", "protocol": p.name(), "parser": format!("{:?}", flavor), "example_transition": "configuration --validate_claim(a, Reject)--> configuration: replayed on the real parser, then every pool token parsed and compared with the model", "pool_tokens": ntokens}));
         }
+    }
+    // ---- registrations around set_footer / set_implicit_assertion (both properties; all protocols)
+    {
+        let accs = par_units(&Proto::ALL.to_vec(), |p| {
+            let mut acc = Acc::default();
+            adapter::freeze_default_clock();
+            config_around_footer(prop, *p, &mut acc);
+            acc
+        });
+        all.merge(Acc::merge_all(accs));
     }
     let model_parses = PARSES.load(Ordering::Relaxed);
     let model_replays = REPLAYS.load(Ordering::Relaxed);
@@ -441,6 +537,16 @@ pub fn replay(prop: &'static str, case: &Value) -> i32 {
                 0
             }
         };
+    }
+    if case.get("config_around_footer").is_some() {
+        let Ok(proto) = serde_json::from_value::<Proto>(case["config_around_footer"]["proto"].clone()) else { crate::report::machinery_error("no proto") };
+        let mut acc = Acc::default();
+        adapter::freeze_default_clock();
+        config_around_footer(prop, proto, &mut acc);
+        for v in &acc.violations {
+            println!("VIOLATION property={} replay=(this file)\n  key:  {}\n  what: {}", prop, v.key, v.what);
+        }
+        return if acc.violations.is_empty() { 0 } else { 1 };
     }
     if case.get("spelling_case").is_some() {
         let sc = &case["spelling_case"];
